@@ -364,13 +364,14 @@ def _run_schedule(make, programs, prefix, rng, watchdog_s, line_level, preempt_p
 
 
 def next_prefix(trace, bound):
-    """DFS: the last choice point with an untried alternative that stays within the pre-emption bound."""
+    """DFS: the last choice point with an untried alternative that stays within the pre-emption bound.
+    At every choice point the alternatives are tried in the order [default, the others by index], the default being what an
+    unconstrained run takes (continue the current thread if it can run, else the lowest runnable one)."""
     for k in range(len(trace) - 1, -1, -1):
         opts, c, pre, cur = trace[k]
+        order = ([cur] if cur in opts else []) + [o for o in opts if o != cur]
         pre_before = sum(1 for x in trace[:k] if x[2])
-        for o in opts:
-            if o <= c:
-                continue
+        for o in order[order.index(c) + 1:]:
             is_pre = (cur in opts) and o != cur
             if pre_before + (1 if is_pre else 0) <= bound:
                 return [x[1] for x in trace[:k]] + [o]
